@@ -92,6 +92,24 @@ pub fn emit(dir: &Path) {
       db.rels.insert("arc".into(), arc.iter().map(|(a, b)| vec![i(*a), i(*b)]).collect());
       write(dir, "KF-3c.json", "C03", "KF-3c", Program { rels, rules, macros: vec![] }, Kind::Ascent, vec![], db);
    }
+   // KF-3d: every column of the lattice clause bound (the lattice column by an earlier clause): the all-columns index
+   // of a lattice is never written, so the clause matches nothing
+   {
+      let rels = vec![
+         rel("src", vec![Ty::I32, Ty::U32], true),
+         lat("lat", vec![Ty::I32, Ty::U32]),
+         rel("obs", vec![Ty::I32, Ty::U32], false),
+         rel("both", vec![Ty::I32], false),
+      ];
+      let rules = vec![
+         Rule { heads: vec![hd("lat", vec![v("x"), v("w")])], body: vec![cl("src", vec![av("x"), av("w")])] },
+         Rule { heads: vec![hd("obs", vec![v("x"), v("s")])], body: vec![cl("lat", vec![av("x"), av("s")])] },
+         Rule { heads: vec![hd("both", vec![v("x")])], body: vec![cl("obs", vec![av("x"), av("s")]), cl("lat", vec![av("x"), av("s")])] },
+      ];
+      let mut db = Db::default();
+      db.rels.insert("src".into(), vec![vec![i(2), i(0)], vec![i(1), i(2)], vec![i(1), i(1)]]);
+      write(dir, "KF-3d.json", "C03", "KF-3d", Program { rels, rules, macros: vec![] }, Kind::Ascent, vec![], db);
+   }
    // KF-5: parallel lattice whose non-key indices are Vec-backed: a row number is appended once per improvement
    {
       let rels = vec![
